@@ -358,3 +358,53 @@ def checklist(chk, rule, prog, fn, kind, checks, what, **kw):
                "missing on this path: " + describe_check(checks[missing], fn),
                path=None if ok else p, key="%s %s" % (rule, fn.sname))
     return n
+
+
+# ---------------------------------------------------------------------------------------------
+# parameter limits: "success (and reaching a core) implies lo <= param <= hi"
+def limits_rule(chk, rule, prog, rows, what="success return"):
+    """rows: [(function name, {param index: (role, lo, hi)}, core callee names or None)].
+    At every exit that may return 0 and at every call to a core callee, the interval of each listed
+    parameter under the path facts must lie inside [lo, hi] — or the function succeeded through a
+    call (that returned 0) to another row function to which the parameter was forwarded unchanged
+    into a position whose own limits are at least as tight."""
+    byfn = {}
+    fns = {}
+    for name, params, cores in rows:
+        fn = prog.need(name, rule=rule)
+        byfn[fn.key] = params
+        fns[name] = fn
+    nsites = 0
+    for name, params, cores in rows:
+        fn = fns[name]
+        for p in paths(prog, fn):
+            if p.kind != "ret":
+                continue
+            sites = []
+            if cores:
+                sites += [(e.idx, "call to %s at %s" % (e.callee_name(), fn.loc(e.iid)), [])
+                          for e in p.calls() if e.callee_name() in cores]
+            if p.may_return_zero():
+                for conj in success_conjunctions(p):
+                    sites.append((len(p.events), "%s at %s" % (what, fn.loc(p.end_iid)), conj))
+            for idx, where, conj in sites:
+                nsites += 1
+                fb = p.facts_before(idx)
+                for pi, (role, lo, hi) in sorted(params.items()):
+                    iv = fb.interval(("arg", pi)) or (0, (1 << 64) - 1)
+                    ok = lo <= iv[0] and iv[1] <= hi
+                    via = ""
+                    if not ok:
+                        for e in p.calls():
+                            if e.callee[0] == "fn" and e.callee[1].key in byfn and e.idx < idx and call_is_zero(p, e, conj):
+                                cpar = byfn[e.callee[1].key]
+                                for ci, (_r, clo, chi) in cpar.items():
+                                    if ci < len(e.args) and e.args[ci] == ("arg", pi) and lo <= clo and chi <= hi:
+                                        ok = True
+                                        via = "checked by %s" % e.callee_name()
+                    chk.ob(rule, fn, "%s within [%d, %d] at %s" % (role, lo, hi, where), ok, loc=fn.loc(p.end_iid),
+                           detail=via or "path facts give %s in [%d, %d]" % (role, iv[0], iv[1]),
+                           path=None if ok else p,
+                           key="%s %s %s-%s" % (rule, name, role, "unbounded" if (iv[0] < lo and iv[1] > hi) else
+                                                ("below-min" if iv[0] < lo else "above-max")))
+    return nsites
